@@ -1,9 +1,14 @@
 (* Extract.v — extraction of the executable models and judges to OCaml.
    Only ExtrOcamlBasic is used: bool, option, list, prod, unit, sumbool map to OCaml's own types;
    nat, positive and Z stay the extracted inductive types (no Extract Constant, no ExtrOcamlZInt). *)
-From Cmr Require Import Base Det CtuModel PivotModel TuModel SpModel.
+From Cmr Require Import Base Det CtuModel PivotModel TuModel SpModel GraphModel.
 Require Import ExtrOcamlBasic.
 Extraction Language OCaml.
+(* The only directives of our own: boolean conjunction/disjunction become OCaml's lazy operators.  For total,
+   effect-free arguments (everything extracted here) the value is the same; it only avoids evaluating the
+   second argument when the first decides (the judges chain cheap tests before exponential oracles). *)
+Extract Inlined Constant andb => "(&&)".
+Extract Inlined Constant orb => "(||)".
 Extraction "cmr_model.ml"
   Z.add Z.mul Z.opp
-  judge_ctu_compl judge_ctu_test judge_pivot judge_tu judge_regular judge_sp judge_balanced.
+  judge_ctu_compl judge_ctu_test judge_pivot judge_tu judge_regular judge_sp judge_balanced judge_graphic judge_network judge_repmat.
